@@ -7,6 +7,8 @@ import GraphiqModel.Proofs.StateToGraphRoundTrip
 import GraphiqModel.Proofs.StateToGraphTotal
 import GraphiqModel.Proofs.StateToGraphGauge
 import GraphiqModel.Proofs.StateToGraphAdjugate
+import GraphiqModel.Proofs.StateToGraphDensity
+import GraphiqModel.Proofs.StateToGraphNegativity
 import GraphiqModel.Proofs.GraphStateGroup
 namespace Graphiq.C08
 open Graphiq Graphiq.PRow Graphiq.Tab Graphiq.STab
@@ -385,8 +387,50 @@ example : (∀ i j, i < 3 → j < 3 → tri i j = tri j i) ∧ (∀ i, i < 3 →
      have h2 : j = 0 ∨ j = 1 ∨ j = 2 := by omega
      rcases h1 with rfl | rfl | rfl <;> rcases h2 with rfl | rfl | rfl <;> decide)
 
-/- Not theorems of this development (kept visible): (1) the density-matrix side (negativity-based edge detection) — compared
-   numerically per input; (2) that the Python's float `np.round(det · inv) % 2` equals the exact GF(2) inverse — not needed for soundness
+/-! ### density matrix → graph: what is exact about the negativity-based edge detection
+
+  `_density_to_graph_pure` decides the pair `i < j` by projecting every other qubit onto `|0⟩` (`project_and_remove`), tracing it out and
+  comparing the negativity of the two-qubit state with 0.1.  The full statement `density_to_graph(|G⟩⟨G|) = G` is about dense complex
+  matrices and float eigenvalues and is NOT a theorem here (`density_to_graph_statement` is only described).  Proved: the two exact
+  halves below; cited (textbook): for a stabilizer state `ρ = 2⁻ⁿ Σ_{g ∈ S} g`, `⟨0_M| ρ |0_M⟩ = 2⁻ⁿ Σ g|_{i,j}` over the elements of `S`
+  without X or Y on `M` (`⟨0|X|0⟩ = ⟨0|Y|0⟩ = 0`) — `PairGroup` is that set — and the uniqueness of the Jordan decomposition
+  (negativity = trace of the negative part).  The harness compares `project_and_remove` and `negativity` of every pair of every graph on
+  ≤ 5 vertices with the two states below (1e-9). -/
+
+/-- **which two-qubit state the code looks at** (every n, every simple graph, every pair `i ≠ j`; group level): the restrictions to
+    `(i, j)` of the elements of the group of `|G⟩` that carry no X or Y on the other qubits form exactly the signed group of the two-vertex
+    graph state with an edge iff `adj i j` — `⟨X⊗Z, Z⊗X⟩` (edge) or `⟨X⊗I, I⊗X⟩` (no edge).
+    Missing for `density_to_graph(|G⟩⟨G|) = G`: the Hilbert-space identity quoted above and the float eigenvalue computation. -/
+theorem density_to_graph_pair_state_partial (n : Nat) (adj : Adj) (hsym : ∀ i j, i < n → j < n → adj i j = adj j i)
+    (hirr : ∀ i, i < n → adj i i = false) (i j : Nat) (hi : i < n) (hj : j < n) (hij : i ≠ j) (P : PRow) :
+    PairGroup (graphSTab n adj) i j P ↔ (graphSTab 2 (pairAdj (adj i j))).Spn P :=
+  pairGroup_graph n adj hsym hirr i j hi hj hij P
+
+theorem tri_symm : ∀ i j, i < 3 → j < 3 → tri i j = tri j i := by
+  intro i j hi hj
+  have h1 : i = 0 ∨ i = 1 ∨ i = 2 := by omega
+  have h2 : j = 0 ∨ j = 1 ∨ j = 2 := by omega
+  rcases h1 with rfl | rfl | rfl <;> rcases h2 with rfl | rfl | rfl <;> decide
+
+/-- non-vacuity: in the triangle, the pair `(0, 2)`: `X₀Z₁Z₂ · (no X/Y on qubit 1)` restricts to `X⊗Z`, a generator of the one-edge state -/
+example : PairGroup (graphSTab 3 tri) 0 2 ((graphSTab 2 (pairAdj true)).row 0) :=
+  (density_to_graph_pair_state_partial 3 tri tri_symm (by decide) 0 2 (by decide) (by decide) (by decide) _).mpr
+    (spn_gen (graphSTab 2 (pairAdj true)) 0 (by decide))
+
+/-- **the two possible pair states and their negativities** (exact 4×4 rational matrices): the stabilizer states of `⟨X⊗I, I⊗X⟩` and
+    `⟨X⊗Z, Z⊗X⟩` are `|++⟩⟨++|` and `CZ|++⟩⟨++|CZ`; the partial transpose (`bipartite_partial_transpose(rho, 2, 2, 0)`) of the first is
+    positive semidefinite (negative part `0`, negativity 0), that of the second has the Jordan decomposition `posPart − negPart` with
+    `tr negPart = 1/2` (negativity 1/2); the threshold 0.1 lies strictly between -/
+theorem density_to_graph_pair_negativity :
+    (Neg.rhoPlus = (1/4 : ℚ) • (1 + Neg.XI + Neg.IX + Neg.XI * Neg.IX) ∧
+     Neg.rhoEdge = (1/4 : ℚ) • (1 + Neg.XZ + Neg.ZX + Neg.XZ * Neg.ZX)) ∧
+    (Neg.Jordan (Neg.ptA Neg.rhoPlus) Neg.rhoPlus 0 ∧ Matrix.trace (0 : Neg.M4) = 0) ∧
+    (Neg.Jordan (Neg.ptA Neg.rhoEdge) Neg.posPart Neg.negPart ∧ Matrix.trace Neg.negPart = 1/2) ∧
+    ((0 : ℚ) ≤ 1/10 ∧ (1/10 : ℚ) < 1/2) :=
+  ⟨⟨Neg.rhoPlus_group_sum, Neg.rhoEdge_group_sum⟩, Neg.negativity_plus, Neg.negativity_edge, Neg.threshold_separates⟩
+
+/- Not theorems of this development (kept visible): (1) the density-matrix side beyond the two exact halves above (dense complex
+   matrices, purity test, float eigenvalues, the closing `np.allclose` validation) — compared numerically per input; (2) that the Python's float `np.round(det · inv) % 2` equals the exact GF(2) inverse — not needed for soundness
    (`state_to_graph_sound` quantifies over every candidate inverse); completeness (`state_to_graph_complete`) is proved for every
    inverse computation that is correct on matrices with trivial kernel, and the float one is compared with the exact one per input by
    the harness (D49 was such a disagreement).  Completeness itself was false before the repairs 86ab4f1 (D40) and 8a43724 (D49). -/
